@@ -237,4 +237,20 @@ theorem texel_legal_perm (p : Pos) (k : Sq) (h : GenWF p k) : (legalMoves p k).P
   intro m
   rw [mem_legalMoves p k h, mem_genLegal]
 
+/-! ## decidable form of the hypotheses -/
+
+theorem genWF_of_b (p : Pos) (k : Sq) (h : genWFb p k = true) : GenWF p k := by
+  unfold genWFb at h
+  simp only [Bool.and_eq_true, List.all_eq_true, allSq, List.mem_finRange, true_imp_iff, decide_eq_true_eq, beq_iff_eq,
+    Bool.or_eq_true, Bool.not_eq_true', beq_eq_false_iff_ne] at h
+  obtain ⟨⟨⟨h1, h2⟩, h3⟩, h4⟩ := h
+  refine ⟨h1, ⟨h2, ?_⟩, ?_⟩
+  · intro s hs
+    rcases h3 s with h | h
+    · exact absurd hs h
+    · exact h
+  · intro e he
+    rw [he] at h4
+    exact beq_iff_eq.1 h4
+
 end Chess.Texel
